@@ -1,4 +1,7 @@
 import TsRsVerif.Model.Deps
+import TsRsVerif.Lemmas.DeInst
+import TsRsVerif.Model.TsEval
+import TsRsVerif.Model.TsNorm
 /-!
 # C07 — declarations of generic types are parametric and well-scoped
 
@@ -81,5 +84,64 @@ def exG : Item :=
                { name := some "c".toList, ty := .param "C".toList }] }
 example : declS { ops := Case.asciiOps } [exLeaf, exG] 20 exG
     = .ok "type G<A, B = Leaf> = { a: Array<A>, b: B, c: number, };".toList := by decide +kernel
+
+/-! ## expanding the generic declaration at the arguments IS the instantiation's own declaration (tree level)
+
+The tree-level model (`Model/TreeDerive.lean`: the declaration as a TypeScript type tree, tied to the real `decl()` text by the
+compiled correspondence of C01 / C07) for every item without `inline` / `flatten` / `as` / `type` / `concrete`: the body of the item
+whose Rust definition has the arguments in place of the parameters (what `decl_concrete()` of the instantiation prints) is the generic
+body with the TypeScript names of the arguments substituted for the binders — the same tree, so it denotes the same type under every
+set of declarations. For every item of that fragment (structs of every shape, enums of every representation, optional fields,
+renames), every argument list whose names exist. -/
+open Ts Tree Builtin in
+theorem C07_expansion_is_concrete (cfg : Cfg) (env : Env) (it : Item) (names : List Str) (args : List RTy) (targs : List Ts) (b : Ts)
+    (hargs : nameTyBL cfg.limit (nameN env) args = some targs)
+    (h : itemBody cfg env it = some b)
+    (hS : it.isEnum = false → it.shape = .named → it.fields.all (fieldOkN cfg it.attr.renameAll it.attr.optionalFields) = true)
+    (hE : it.isEnum = true → ∀ v ∈ it.variants, v.shape = .named → v.fields.all (fieldOkN cfg (renameAllT it v) .no) = true) :
+    itemBody cfg env (Item.inst (names.zip args) it) = some (Ts.subst (names.zip targs) b) :=
+  itemBody_inst cfg env names args targs hargs it b h hS hE
+
+/-- … hence the two denote the same set of JSON values, whatever the other declarations are -/
+theorem C07_expansion_denotes_concrete (cfg : Cfg) (env : Env) (it : Item) (names : List Str) (args : List RTy) (targs : List Ts) (b c : Ts)
+    (hargs : Builtin.nameTyBL cfg.limit (Tree.nameN env) args = some targs)
+    (h : Tree.itemBody cfg env it = some b)
+    (hS : it.isEnum = false → it.shape = .named → it.fields.all (Tree.fieldOkN cfg it.attr.renameAll it.attr.optionalFields) = true)
+    (hE : it.isEnum = true → ∀ v ∈ it.variants, v.shape = .named → v.fields.all (Tree.fieldOkN cfg (Tree.renameAllT it v) .no) = true)
+    (hc : Tree.itemBody cfg env (Item.inst (names.zip args) it) = some c) (D : Decls) (fuel : Nat) (j : JVal) :
+    Ts.memberb D fuel c j = Ts.memberb D fuel (Ts.subst (names.zip targs) b) j := by
+  rw [C07_expansion_is_concrete cfg env it names args targs b hargs h hS hE] at hc
+  injection hc with hc; rw [hc]
+
+/-- the reference to the instantiation is the identifier applied to the names of the arguments (tree level) -/
+theorem C07_reference_tree (cfg : Cfg) (env : Env) (id : Str) (args : List RTy) (T : Ts)
+    (h : Tree.tyTs cfg env (.named id args) = some T) :
+    ∃ it targs, env.find id = some it ∧ Builtin.nameTyBL cfg.limit (Tree.nameN env) args = some targs ∧
+      targs.length = it.generics.length ∧ T = .ref (tsName it) targs := by
+  simp only [Tree.tyTs, Builtin.nameTyB, bind, Option.bind] at h
+  cases ha : Builtin.nameTyBL cfg.limit (Tree.nameN env) args with
+  | none => simp [ha] at h
+  | some targs =>
+    simp only [ha, Tree.nameN, Option.bind] at h
+    cases hf : env.find id with
+    | none => simp [hf] at h
+    | some it =>
+      simp only [hf] at h
+      split at h
+      · injection h with h; exact ⟨it, targs, rfl, rfl, by assumption, h.symm⟩
+      · simp at h
+
+/-! non-vacuity: a generic enum with its parameter bare, in a `Vec` and under `Option`, at `bool` -/
+def exC7Cfg : Cfg := { ops := { isUpper := fun c => Case.isAsciiUpper c, isAlnum := fun _ => true, isNumeric := fun _ => false, strLower := id, strUpper := id } }
+def exC7G : Item := { isEnum := true, name := "G".toList, generics := [{ name := "T".toList }], attr := { tag := some "k".toList }, variants := [
+  { name := "N".toList, shape := .unit, fields := [] },
+  { name := "L".toList, shape := .named, fields := [{ name := some "l".toList, ty := .vec (.param "T".toList) }, { name := some "o".toList, ty := .option (.param "T".toList) }] }] }
+example : (∀ v ∈ exC7G.variants, v.shape = .named → v.fields.all (Tree.fieldOkN exC7Cfg (Tree.renameAllT exC7G v) .no) = true)
+    := by decide +kernel
+#guard match Builtin.nameTyBL exC7Cfg.limit (Tree.nameN [exC7G]) [.prim "bool"] with | some ts => Ts.beqL ts [.boolean] | none => false
+#guard (Tree.itemBody exC7Cfg [exC7G] exC7G).isSome
+#guard match Tree.itemBody exC7Cfg [exC7G] (Item.inst (["T".toList].zip [.prim "bool"]) exC7G), Tree.itemBody exC7Cfg [exC7G] exC7G with
+  | some c, some b => Ts.beq c (Ts.subst (["T".toList].zip [.boolean]) b) && !Ts.beq c b
+  | _, _ => false
 
 end TsRs
